@@ -9,7 +9,7 @@ RULE = ('generated charts whose handlers post fifo/lifo at reactions and at entr
         'length must match after every step and no step may run when the model queue is empty. complete_circuit is exercised '
         'separately per case. distinct_nontrivial = distinct (host, steps, handler posts, lifo share) tuples with >= 1 handler post')
 CASES = {'quick': 3000, 'thorough': 200000}
-BUDGET = {'quick': 40, 'thorough': 300}
+BUDGET = {'quick': 150, 'thorough': 300}
 REQUIRE = {'steps': 20000, 'handler_posts': 2000, 'complete_circuit_runs': 500}
 ASSUME = ['queue capacity (500) is not reached (overflow is C16)']
 ENGINE = 'chartgen+model'
